@@ -3,7 +3,6 @@ package mpath
 import (
 	"encoding/json"
 	"fmt"
-	"math"
 	"reflect"
 	"regexp"
 	"sort"
@@ -442,31 +441,23 @@ func func_decimalSlice(rtParams FunctionParameterTypes, val any, decimalSliceFun
 	}
 
 	var newSlc []decimal.Decimal
-	switch valueInstance := val.(type) {
-	case []decimal.Decimal:
+	if valueInstance, ok := val.([]decimal.Decimal); ok {
 		newSlc = append([]decimal.Decimal{}, valueInstance...)
 		newSlc = append(newSlc, paramNumbers...)
-	case []any:
+	} else if v := reflect.ValueOf(val); v.Kind() == reflect.Slice || v.Kind() == reflect.Array {
+		// any slice or array of numbers, whatever Go type carries them
 		newSlc = append([]decimal.Decimal{}, paramNumbers...)
-		for _, vs := range valueInstance {
-			switch t := vs.(type) {
-			case decimal.Decimal:
+		for i := 0; i < v.Len(); i++ {
+			vs := v.Index(i).Interface()
+			if t, ok := vs.(decimal.Decimal); ok {
 				newSlc = append(newSlc, t)
-			case string:
-				wasNumber, number := convertToDecimalIfNumberAndCheck(t)
-				if wasNumber {
-					newSlc = append(newSlc, number)
-					continue
-				}
-				goto notArrayOfNumbers
-			case float64:
-				if math.IsNaN(t) || math.IsInf(t, 0) {
-					goto notArrayOfNumbers
-				}
-				newSlc = append(newSlc, decimal.NewFromFloat(t))
-			default:
+				continue
+			}
+			wasNumber, number := convertToDecimalIfNumberAndCheck(vs)
+			if !wasNumber {
 				goto notArrayOfNumbers
 			}
+			newSlc = append(newSlc, number)
 		}
 	}
 
